@@ -37,11 +37,19 @@ type DataValue struct {
 }
 
 func (d *DataValue) Decode(b []byte) (int, error) {
+	return d.decode(b, 0)
+}
+
+// decode decodes a data value which is nested depth levels deep.
+func (d *DataValue) decode(b []byte, depth int) (int, error) {
+	if depth > MaxNestingDepth {
+		return 0, StatusBadEncodingLimitsExceeded
+	}
 	buf := NewBuffer(b)
 	d.EncodingMask = buf.ReadByte()
 	d.Value = new(Variant)
 	if d.Has(DataValueValue) {
-		buf.ReadStruct(d.Value)
+		buf.readNested(func(b []byte) (int, error) { return d.Value.decode(b, depth+1) })
 	}
 	if d.Has(DataValueStatusCode) {
 		d.Status = StatusCode(buf.ReadUint32())
